@@ -21,6 +21,11 @@ POOL = ["http://example.com", "http://example.com/", "http://u:p@example.com:808
         "http://bücher.example/straße", "http://[fe80::1%25eth0]:80/", "http://example.com/a;p=1/b;q", "HTTP://EXAMPLE.com/%7efoo",
         "http://example.com/?a=1&b=2&a=3#f", "http://h/a/../b/./c", "//example.com/a", "http://1.2.3.4:0/", "http://Ab_c.é.com/x"]
 READ_FIELDS = [f for f in ALL_FIELDS if f not in ("val",)]
+# raw components that end in a truncated escape run / begin with a continuation byte / contain malformed escapes: reading one
+# right after another must not carry decoder state over (process-global quoter and unquoter objects are shared)
+SPECIAL = ["http://example.org/#tail-%E2%82", "http://example.com/#%ACrest", "http://example.com/a%E2%82/%ACb", "http://h/%F0%9F%98",
+           "http://h/%80x", "http://u%E2:p%82@h/%AC", "http://h/?a=%E2%82&%AC=1", "http://h/x%", "http://h/%4", "http://h/%C3", "http://h/%A9?%C3=%A9#%C3",
+           "http://h/" + "a" * 8190 + "%C3", "http://h/" + "é" * 1400 + "%E2%82"]
 MOD_OPS = ["with_user", "with_password", "with_fragment", "with_path", "with_name", "with_suffix", "truediv", "joinpath",
            "with_query", "extend_query", "update_query", "with_host", "with_scheme", "with_port", "without_query_params",
            "parent", "origin", "relative", "join"]
@@ -74,8 +79,12 @@ def gen_history(rnd, nsteps):
             steps.append({"k": "build", "st": progs.rnd_build(rnd)})
         elif r < 0.5:
             steps.append({"k": "modify", "slot": rnd.randrange(1000), "st": progs.rnd_step(rnd, MOD_OPS), "ref": rnd.randrange(1000)})
-        elif r < 0.75:
+        elif r < 0.7:
             steps.append({"k": "read", "slot": rnd.randrange(1000), "fields": rnd.sample(READ_FIELDS, rnd.choice((1, 2, 4, 8)))})
+        elif r < 0.75:
+            steps.append({"k": "readseq", "urls": rnd.sample(SPECIAL, 2), "encoded": rnd.random() < 0.7,
+                          "fields": rnd.sample(["fragment", "path", "parts", "name", "user", "password", "query_string", "path_safe",
+                                                "human_repr", "query", "suffix"], 3)})
         elif r < 0.8:
             steps.append({"k": "cmp", "a": rnd.randrange(1000), "b": rnd.randrange(1000)})
         elif r < 0.85:
@@ -169,6 +178,14 @@ def run_history(yarl, steps, mode, run_id, rnd):
                 v5 = J(val5(pool[j]))
                 for f, v in o.items():
                     facts.append({"k": "acc:" + v5 + "." + f, "v": J(v)})
+            elif k == "readseq":
+                for s_ in st["urls"]:
+                    res, u = outcome_of(lambda: yarl.URL(s_, encoded=st["encoded"]))
+                    if u is not None:
+                        o = obs(u, st["fields"])
+                        v5 = J(val5(u))
+                        for f, v in o.items():
+                            facts.append({"k": "acc:" + v5 + "." + f, "v": J(v)})
             elif k == "cmp":
                 a, b = pool[slot(st["a"])], pool[slot(st["b"])]
                 for name, f in (("eq", lambda: a == b), ("lt", lambda: a < b), ("le", lambda: a <= b), ("hasheq", lambda: hash(a) == hash(b))):
